@@ -16,6 +16,8 @@ SPEC = dict(
         "sqlx statement-level methods (Prepare's StmtSession) and RawDB do not go through the conn's breaker in this tree and are outside the monitor; RollingWindow options (IgnoreCurrentBucket, other sizes) are not reachable through the breaker",
         "an error without a gRPC status has the code gRPC's own status.Code gives it (Unknown; a wrapped benign status its own code or Unknown) and is therefore benign; raw context.Canceled is benign; raw context.DeadlineExceeded and wrapped failing statuses are left unasserted (newer gRPC maps them to failing codes, older ones to Unknown)",
         "HTTP: a handler that wrote status >= 500 and then panicked must count as a failure (keeps failing => cut off); for a handler that panics after writing < 500 or nothing only 'some outcome' would be required, which is not observable black-box through BreakerHandler and is not asserted",
+        "a Redis pipeline is benign when every reply is a value or redis.Nil (judged by the content of the error, whatever carries it); pipelines mixing redis.Nil with real error replies are not asserted (which reply decides is left open); pipelines with only ERR replies must trip",
+        "sql.ErrTxDone reported by Transact's own Commit (body committed early / driver says so) is the benign ErrTxDone outcome; the composite error of a failed body plus a Rollback that reports ErrTxDone is NOT asserted (on this tree it is recorded as a failure even when the body's error is sql.ErrNoRows; noted in the evidence); lib/store/sqlc adds no breaker of its own (it calls the sqlx.Conn and redis entry points covered here / by C12) and has no table",
         "an admitted call whose req itself returns ErrServiceUnavailable must not run the fallback and must hand req's error to the caller",
     ],
     runs=[
